@@ -458,6 +458,23 @@ export class SchemaPrintingContext {
     delete this.inProgressDefinitions[name];
   }
 
+  // A print that throws must leave nothing behind: definitions stored before the failure may refer to the name that
+  // failed, which will never be exported.
+  definitionNames(): string[] {
+    return Object.keys(this.collectedDefinitions);
+  }
+  rollbackTo(names: string[]): void {
+    const keep = new Set(names);
+    for (const name of Object.keys(this.collectedDefinitions)) {
+      if (!keep.has(name)) {
+        delete this.collectedDefinitions[name];
+      }
+    }
+    for (const name of Object.keys(this.inProgressDefinitions)) {
+      delete this.inProgressDefinitions[name];
+    }
+  }
+
   exportDefinitions():
     | Record<string, JSONSchema7Definition>
     | Record<string, Record<string, JSONSchema7Definition>> {
@@ -2617,7 +2634,13 @@ class ParserFromRuntype implements BeffParser<any> {
       mode: "contextual" as const,
       printingContext: schemaPrintingContext,
     };
-    return this._runtype.schema(ctx);
+    const before = schemaPrintingContext.definitionNames();
+    try {
+      return this._runtype.schema(ctx);
+    } catch (e) {
+      schemaPrintingContext.rollbackTo(before);
+      throw e;
+    }
   }
   describe(): string {
     const ctx: DescribeContext = {
